@@ -39,7 +39,11 @@ fn good_lines() -> Vec<String> {
     v
 }
 
-const FAULT_LINES: [&str; 12] = [
+const FAULT_LINES: [&str; 16] = [
+    "# a comment",
+    "#PKGNAME=x",
+    ";PKGNAME=x",
+    "\tCOMMENT=x",
     "BUILD_DATE",
     "",
     "BILD_DATE=x",
@@ -211,7 +215,7 @@ fn main() {
     }
     run.rule(
         "line alphabet: one or two well-formed lines for each of the 23 variables, repeats and \
-         awkward values, and 12 fault lines (no '=', empty, misspelt / lower-case / blank-padded \
+         awkward values, and 16 fault lines (no '=', empty, misspelt / lower-case / blank-padded \
          names, empty name, empty / blank-padded / trailing-garbage / overflowing integers). Every \
          sequence of <= N lines spliced before / inside / after three contexts (nothing; all \
          required but one; all required), with and without the final newline; every subset of the \
@@ -309,6 +313,51 @@ fn main() {
     t.states += 1;
     check_text(&mut t, &join(&rev));
     run.bound(format!("full {}-line entry: 2^{} required-subsets, {} fault lines x every position (insert and substitute), all adjacent transpositions, rotations, reversal", fl.len(), req.len(), FAULT_LINES.len()));
+    // scale: many lines, long values, the whole range of integer magnitudes
+    let mut count = 0;
+    for n in [15usize, 16, 17, 31, 32, 33, 64, 100, 257, 1025] {
+        let mut l: Vec<String> = full.clone();
+        for k in 0..n {
+            l.push(format!("DEPENDS=dep{}>={}", k % 7, k));
+            if k % 3 == 0 {
+                l.push(format!("DESCRIPTION=line {}", k));
+            }
+        }
+        let refs: Vec<&str> = l.iter().map(|x| x.as_str()).collect();
+        t.states += 1;
+        count += 1;
+        check_text(&mut t, &join(&refs));
+        // and the same entry with one required variable removed at the very end
+        let refs2: Vec<&str> = refs.iter().filter(|x| !x.starts_with("SIZE_PKG=")).cloned().collect();
+        check_text(&mut t, &join(&refs2));
+    }
+    let long_value = "v".repeat(70_000);
+    for var in ["COMMENT", "DESCRIPTION", "HOMEPAGE"] {
+        let mut l: Vec<String> = required_entry(None);
+        l.push(format!("{}={}", var, long_value));
+        l.push(format!("{}=tail", var));
+        let refs: Vec<&str> = l.iter().map(|x| x.as_str()).collect();
+        t.states += 1;
+        count += 1;
+        check_text(&mut t, &join(&refs));
+    }
+    for e in 0..64u32 {
+        for d in [-1i128, 0, 1] {
+            for sign in [1i128, -1] {
+                let v = sign * ((1i128 << e) + d);
+                for var in ["FILE_SIZE", "SIZE_PKG"] {
+                    let mut l: Vec<String> = required_entry(Some(21));
+                    l.push(format!("{}={}", var, v));
+                    l.push("SIZE_PKG=5".to_string());
+                    let refs: Vec<&str> = l.iter().map(|x| x.as_str()).collect();
+                    t.states += 1;
+                    count += 1;
+                    check_text(&mut t, &join(&refs));
+                }
+            }
+        }
+    }
+    run.bound(format!("scale: {} texts with 15..1025 extra multi-line lines, 70 000-character values, and FILE_SIZE / SIZE_PKG over +-(2^e-1, 2^e, 2^e+1) for e = 0..63", count));
     run.merge(t);
     run.finish();
 }
